@@ -293,7 +293,10 @@ def render_v3000(mol: Mol, style: V3Style | None = None, rng: random.Random | No
             for bi, _ in chosen:
                 plain_bond_ids.remove(bi)
             unused = [x for x in range(1, max(index_map) + 1) if x not in set(index_map) and x not in {sb[0] for sb in star_bonds}]
-            if unused and rng.random() < 0.5:
+            if star_bonds and rng.random() < 0.35:
+                star_idx = rng.choice(star_bonds)[0]  # ONE star atom serving several multi-attachment bond lines, each with its own ENDPTS
+                obs["star_atom_shared_by_several_bond_lines"] = obs.get("star_atom_shared_by_several_bond_lines", 0) + 1
+            elif unused and rng.random() < 0.5:
                 star_idx = rng.choice(unused)  # an index INSIDE the range used by the real atoms
             else:
                 star_idx = next_free
@@ -312,7 +315,8 @@ def render_v3000(mol: Mol, style: V3Style | None = None, rng: random.Random | No
                  else "  0  0  0     0  0            999 V3000")
     logical = []  # (kind, content)
     logical.append(("frame", "BEGIN CTAB"))
-    n_atom_lines = n + len(star_bonds)
+    star_atoms = sorted({sb[0] for sb in star_bonds})
+    n_atom_lines = n + len(star_atoms)
     n_bond_lines = len(plain_bond_ids) + len(star_bonds)
     nsg = 2 if style.trailing_blocks else 0
     counts = _join(["COUNTS", str(n_atom_lines), str(n_bond_lines), str(nsg), "0", "0"], rng, style.blanks)
@@ -366,7 +370,7 @@ def render_v3000(mol: Mol, style: V3Style | None = None, rng: random.Random | No
         if style.kw_shuffle:
             rng.shuffle(kws)
         atom_lines.append(("atom", _join(toks + kws, rng, style.blanks)))
-    for (star_idx, t, centre, others) in star_bonds:
+    for star_idx in star_atoms:
         line = ("atom", _join([str(star_idx), "*", "0", "0", "0", "0"], rng, style.blanks))
         atom_lines.insert(rng.randint(0, len(atom_lines)), line)
     logical.extend(atom_lines)
@@ -569,8 +573,11 @@ def render_v2000(mol: Mol, style: V2Style | None = None, rng: random.Random | No
     enc = style.encoding
     if enc == "codes" and not codes_only_possible(mol):
         enc = "lines"
+    zero_only = False
     if enc == "stale" and not any(a.chg or a.rad for a in mol.atoms):
-        enc = "lines"  # nothing would supersede the stale codes
+        # a neutralised drawing: the only M  CHG / M  RAD entries are explicit zeros, and they still supersede the stale atom-block codes
+        zero_only = True
+        obs["stale_codes_with_zero_only_property_lines"] = obs.get("stale_codes_with_zero_only_property_lines", 0) + 1
     obs.setdefault("encoding", {})
     obs["encoding"][enc] = obs["encoding"].get(enc, 0) + 1
     lines = list((style.header or [mol.name or "", "  rvharnes", ""])[:3])
@@ -621,6 +628,8 @@ def render_v2000(mol: Mol, style: V2Style | None = None, rng: random.Random | No
         vvv = rng.choice([0, 0, 1, 15]) if style.stereo_fields else 0
         mmm, nnn, eee = (rng.randint(0, n), rng.choice([0, 1, 2]), rng.choice([0, 1])) if style.stereo_fields else (0, 0, 0)
         lines.append(f"{a.x:10.4f}{a.y:10.4f}{a.z:10.4f} {sym:<3s} 0{code:3d}{sss:3d}{hhh:3d}  0{vvv:3d}  0  0  0{mmm:3d}{nnn:3d}{eee:3d}")
+    if zero_only and not chg_entries and not rad_entries:
+        (chg_entries if rng.random() < 0.5 else rad_entries).append((rng.randint(1, n), 0))
     for i, j, t in mol.bonds:
         st = (rng.choice([0, 1, 4, 6]) if t == 1 else rng.choice([0, 3]) if t == 2 else 0) if style.stereo_fields else 0
         rrr, ccc = (rng.choice([0, 1, 2]), rng.choice([0, -1, 1, 4, 8])) if style.stereo_fields else (0, 0)
